@@ -7,7 +7,7 @@ MANIFEST = dict(
     category="proof",
     text="Contract on the instrument-resolution prefix of the real OPNMIDIplay::realTime_NoteOn (text from the signature to the anchor `MIDIchannel::NoteInfo::Phys voices[`, extracted on every run): for every channel/note/velocity byte, every channel state in the table invariant, every synth mode and every content of the bank map (ghost view over the three keys the fallback may ask for): bank number = MSB*256+LSB (GS: LSB ignored), percussion = program (+128 for XG SFX) with the key as entry, the instrument used is the first sounding one of [bank, bank with the low LSB bits cleared, bank 0 of the same kind], otherwise the note is blank; the entry index is < 128; drum key fixes the tone; velocity offset and clamp 1..127.",
     design_ref="DESIGN.md A.1 / C12",
-    level_note="Scoped to instrument resolution. Not covered: the upload of the timbre to the chip (OPN2::setPatch is not under contract), the allocation suffix of realTime_NoteOn, 'an instrument replaced through the bank API is the one subsequently played' (bank map internals: assumed contract bankmap_find over a ghost view), the RSXX after-touch shortcut. Assumed: noteOff, noteUpdate, debug hook. Three if-statements of debug-message bookkeeping (std::set) are dropped by rule R9 (checked on every run to assign none of bank/midiins/ains/tone/velocity/bnk/note/channel).",
+    level_note="Scoped to instrument resolution. Not covered: the call of OPN2::setPatch from noteUpdate's Upd_Patch branch (setPatch itself is under contract in C02: it uploads exactly the 30 registers of the timbre it is given), the allocation suffix of realTime_NoteOn, 'an instrument replaced through the bank API is the one subsequently played' (bank map internals: assumed contract bankmap_find over a ghost view), the RSXX after-touch shortcut. Assumed: noteOff, noteUpdate, debug hook. Three if-statements of debug-message bookkeeping (std::set) are dropped by rule R9 (checked on every run to assign none of bank/midiins/ains/tone/velocity/bnk/note/channel).",
     technique="CBMC code contracts (DFCC) on a mechanically extracted statement range of a C++ member function")
 TRUSTED = ["extraction rules of vlib/cxx2c.py incl. R9 (drop debug bookkeeping) and R12 (statement range)", "harness/env_play.h", "stub with body: bankmap_find = lookup in the ghost view of the bank map", "assumed contracts: noteOff, noteUpdate, find_activenote"]
 ASSUMPTIONS = ["channel table has 16 entries"]
